@@ -48,6 +48,8 @@ def harnesses(tier):
         if t.cmp_only:
             out.append(iadd(t, 1, 1, mode="ieee"))
     slots = cat.slot()
+    if tier == "thorough":
+        slots = slots[::1]  # thorough tier is sized by wall time (see DESIGN.md 7.1)
     if tier == "quick":
         slots = [t for i, t in enumerate(slots) if i % 4 == 2]
     for t in slots + cat.deep():
